@@ -778,23 +778,21 @@ func (ev *evaluator) apply(name string, args []V) (V, *Fault) {
 		rs := runes(s)
 		in := func(r rune) bool { return strings.ContainsRune(chars, r) }
 		if chars == "" {
-			in = func(r rune) bool { return r == ' ' || r == '\t' || r == '\n' || r == '\r' }
+			// the specification's white space: the 25 code points of Unicode's White_Space property
+			// (the compliance corpus trims exactly this list); nothing else - not U+180E, U+200B, U+FEFF
+			in = func(r rune) bool {
+				return (r >= 0x09 && r <= 0x0D) || r == 0x20 || r == 0x85 || r == 0xA0 || r == 0x1680 || (r >= 0x2000 && r <= 0x200A) || r == 0x2028 || r == 0x2029 || r == 0x202F || r == 0x205F || r == 0x3000
+			}
 		}
 		i, j := 0, len(rs)
 		if left {
 			for i < j && in(rs[i]) {
 				i++
 			}
-			if chars == "" && i < j && unicode.IsSpace(rs[i]) {
-				return nil, unspec("trim: exotic whitespace")
-			}
 		}
 		if right {
 			for j > i && in(rs[j-1]) {
 				j--
-			}
-			if chars == "" && j > i && unicode.IsSpace(rs[j-1]) {
-				return nil, unspec("trim: exotic whitespace")
 			}
 		}
 		return string(rs[i:j]), nil
